@@ -6,6 +6,7 @@ import os
 
 import numpy as np
 
+import c06_entries
 import common
 from common import F, InfraError, Rng, close, digest, err_class, fl, rs, vec
 
@@ -452,9 +453,17 @@ def gen_cases(rng: Rng, tier):
         head.append(dict(dim=2, dom=dom, degree=1))
     for f in head:
         yield _lp_case(rng, tier, f)
-    for k in range(n - len(head)):
+    # the same relations through every entry point that smooths with LP and an explicit bandwidth, away from [0,1]
+    n_entry = 0
+    for entry in sorted(set(c06_entries.ENTRIES)):
+        for dom in ("doy", "shift1000") if tier == "quick" else ("doy", "shift1000", "neg", "milli", "unit"):
+            yield c06_entries.gen_entry_case(rng, tier, dict(entry=entry, dom=dom))
+            n_entry += 1
+    for k in range(n - len(head) - n_entry):
         r = k % 13
-        if r == 11:
+        if r in (3, 9):
+            yield c06_entries.gen_entry_case(rng, tier)
+        elif r == 11:
             us = [Fraction(0), Fraction(1), Fraction(-1), Fraction(1, 2), Fraction(-1, 2), Fraction(1) + Fraction(1, 2 ** 40),
                   Fraction(1) - Fraction(1, 2 ** 40), Fraction(3, 2), Fraction(-7), Fraction(255, 256)] + rng.dyadics(6, -2, 2, 6)
             yield dict(kind="kern", kernel=rng.choice(KERNELS), u=[rs(u) for u in us])
@@ -474,7 +483,14 @@ def search_cases(rng, tier):
 
 
 def witness_cases():
-    return []
+    """Open finding C06-multivariate-smooth-bandwidth: replayed on every run."""
+    import json
+
+    path = os.path.join(common.VERIF, "known_findings.d", "C06.json")
+    try:
+        return [f["witness"] for f in json.load(open(path)).get("open", []) if f.get("witness")]
+    except (OSError, ValueError):
+        return []
 
 
 # --------------------------------------------------------------------------
@@ -555,6 +571,8 @@ def run_impl(case):
 
     kind = case["kind"]
     out = {}
+    if kind == "entry":
+        return c06_entries.run_entry(case)
     if kind == "kern":
         u = np.array(fl(_Fv(case["u"])))
         f = lpm._kernel(case["kernel"])
@@ -666,6 +684,8 @@ def run_impl(case):
 
 def model_lines(case, impl):
     J = ",".join
+    if case["kind"] == "entry":
+        return [] if "__crash__" in impl else c06_entries.entry_model_lines(case, impl)
     if case["kind"] == "kern":
         return [f"kern {case['kernel']} {J(case['u'])}", "monos2 3"]
     if case["kind"] == "reject":
@@ -687,6 +707,8 @@ def model_lines(case, impl):
 
 
 def parse_model(case, outs):
+    if case["kind"] == "entry":
+        return dict(outs=list(outs))
     if case["kind"] == "kern":
         return dict(k=outs[0], monos=outs[1])
     if case["kind"] == "reject":
@@ -717,6 +739,8 @@ def compare(case, impl, model):
         return [f"implementation crashed: {impl['__crash__']} {impl.get('msg')}"]
     kind = case["kind"]
     ds = []
+    if kind == "entry":
+        return c06_entries.entry_compare(case, impl, model)
     if kind == "kern":
         if model["k"].startswith("error") or model["k"] == "bad":
             return [f"model rejects kernel: {model['k']}"]
@@ -778,6 +802,8 @@ def compare(case, impl, model):
 # --------------------------------------------------------------------------
 
 def oracle(case, impl):
+    if case["kind"] == "entry":
+        return c06_entries.entry_oracle(case, impl)
     entry = "LocalPolynomial.predict"
     if "__crash__" in impl:
         return [dict(clause="runs", entry=entry, msg=f"crash {impl['__crash__']}: {impl.get('msg')} {impl.get('tb', '')[-300:]}")]
@@ -894,6 +920,8 @@ def nontrivial(case, impl):
 
 
 def classify(case, impl):
+    if case["kind"] == "entry":
+        return ["kind:entry", "entry:" + c06_entries.ENTRY_NAME[case["entry"]], "domain:" + case["dom"], "kernel:" + case["kernel"], f"degree:{case['degree']}"]
     if case["kind"] != "lp":
         return ["kind:" + case["kind"]]
     tags = ["kind:lp", f"dim:{case['dim']}", "kernel:" + case["kernel"], f"degree:{case['degree']}", "domain:" + case["dom"],
